@@ -524,6 +524,18 @@ fn emit_tag(
     Ok(())
 }
 
+/// Choice text is content, not a string literal: `<>` in it is glue.
+fn push_choice_text_with_glue(text: &str, out: &mut Vec<Value>) {
+    for (index, piece) in text.split("<>").enumerate() {
+        if index > 0 {
+            out.push(json!("<>"));
+        }
+        if !piece.is_empty() {
+            out.push(json!(format!("^{piece}")));
+        }
+    }
+}
+
 fn emit_choice_text_segment(
     text: &str,
     tags: &[DynamicString],
@@ -546,9 +558,19 @@ fn emit_choice_text_segment(
             .iter()
             .any(|p| !matches!(p, DynamicStringPart::Text(_)));
         if has_inline {
-            emit_dynamic_string_parts(&dynamic.parts, out, scope, context)?;
+            for part in &dynamic.parts {
+                match part {
+                    DynamicStringPart::Text(text) => push_choice_text_with_glue(text, out),
+                    other => emit_dynamic_string_parts(
+                        std::slice::from_ref(other),
+                        out,
+                        scope,
+                        context,
+                    )?,
+                }
+            }
         } else {
-            out.push(json!(format!("^{text}")));
+            push_choice_text_with_glue(text, out);
         }
     }
     for tag in tags {
@@ -578,9 +600,19 @@ fn emit_choice_text_content(
             .iter()
             .any(|p| !matches!(p, DynamicStringPart::Text(_)));
         if has_inline {
-            emit_dynamic_string_parts(&dynamic.parts, out, scope, context)?;
+            for part in &dynamic.parts {
+                match part {
+                    DynamicStringPart::Text(text) => push_choice_text_with_glue(text, out),
+                    other => emit_dynamic_string_parts(
+                        std::slice::from_ref(other),
+                        out,
+                        scope,
+                        context,
+                    )?,
+                }
+            }
         } else {
-            out.push(json!(format!("^{text}")));
+            push_choice_text_with_glue(text, out);
         }
     }
     for tag in tags {
